@@ -5,7 +5,7 @@
      files     : ";"-separated  path|lang|total|code|comment|blank, "-" for none
      pi        : comma-separated naturals (selection code), "-" for the empty code
    commands  : summary R | listed FMT VERBOSE R | agg R | totals F | bylang V PI F | bydir V DEPTH PI F
-               | reg V PI BUILTIN CUSTOMS EXTS | esc S | eff T C M B SKIPC SKIPB | exit R WARNONLY WAE RATCHET *)
+               | reg V PI BUILTIN CUSTOMS EXTS | esc S | uri BYTES | eff T C M B SKIPC SKIPB | exit R WARNONLY WAE RATCHET *)
 open Report_ex
 let rec pos_of_int n = if n = 1 then XH else if n land 1 = 0 then XO (pos_of_int (n lsr 1)) else XI (pos_of_int (n lsr 1))
 let n_of_int n = if n = 0 then N0 else Npos (pos_of_int n)
@@ -71,6 +71,10 @@ let () =
         let s = dec s in
         let e = html_escape s in
         print_endline (enc e ^ "\t" ^ enc (html_escape_spec s) ^ "\t" ^ (if html_safe e then "1" else "0") ^ "\t" ^ enc (html_unescape e))
+      | ["uri"; s] ->
+        (* s = the UTF-8 bytes of a display path *)
+        let e = uri_encode (dec s) in
+        print_endline (enc e ^ "\t" ^ (if uri_ok e then "1" else "0") ^ "\t" ^ enc (uri_decode e))
       | ["eff"; t; c; m; b; sc; sb] ->
         let e = effective (ls t c m b) (sc = "1") (sb = "1") in
         Printf.printf "%d %d %d %d\n" (int_of_n e.l_total) (int_of_n e.l_code) (int_of_n e.l_comment) (int_of_n e.l_blank)
